@@ -79,6 +79,62 @@ def main(argv):
                     if used:
                         ctx.violation("the pool slot of the aborted call was lost (connection still checked out after the call)", dict(case, checked_out=used),
                                       tags=["class:" + kind, "pool-slot-lost", "base-exception"])
+    # ---- interruption while the pool discards a connection that idled out (pool_idle_timeout): the close() of the stale socket is the
+    #      interruption point; afterwards the pool must still hand out its full capacity and calls behave
+    import pymemcache.pool as pool_mod
+    from fakesock import mk_exc
+    from faultrun import Scripted
+
+    class FakeTime:
+        now = 1_000_000.0
+
+        @classmethod
+        def time(cls):
+            return cls.now
+    real_time = pool_mod.time
+    pool_mod.time = FakeTime
+    try:
+        for kind in ("Pooled1", "Pooled2", "HashPooled1"):
+            for bk in BASE_KINDS:
+                for nfollow in (2, 4):
+                    S = Scripted(rng)
+                    S.begin_call(0, {"chunk": "one"})
+                    size = 2 if kind == "Pooled2" else 1
+                    if kind.startswith("Pooled"):
+                        obj = PooledClient(("h", 1), socket_module=S.sm, default_noreply=False, max_pool_size=size, pool_idle_timeout=30)
+                        pools = lambda: [obj.client_pool]
+                    else:
+                        obj = HashClient([("h", 1)], socket_module=S.sm, default_noreply=False, use_pooling=True, max_pool_size=size, pool_idle_timeout=30)
+                        pools = lambda: [c.client_pool for c in obj.clients.values()]
+                    case = {"class": kind, "interruption": bk, "at": "close() of an idled-out pooled connection", "pool_idle_timeout": 30}
+                    ctx.case(("idle-close", kind, bk, nfollow))
+                    ctx.count("idle-close-interruptions")
+                    try:
+                        assert obj.set("a", b"1", noreply=False) is True
+                        FakeTime.now += 31
+                        S.world.arm({("close", 0): mk_exc(bk)})
+                        try:
+                            obj.get("a")
+                        except BaseException as e:
+                            if isinstance(e, Exception):
+                                raise
+                        S.world.arm({})
+                        for j in range(nfollow):
+                            v = b"%d" % j
+                            if obj.set("a", v, noreply=False) is not True or obj.get("a") != v:
+                                ctx.violation("a call after the interruption returned a wrong result", dict(case, call=j), tags=["base-exception", "idle-close"])
+                                break
+                            FakeTime.now += 31 if j % 2 else 1
+                    except Exception as e:
+                        ctx.violation("after an interruption while discarding an idle connection, later calls fail (pool slot lost)", dict(case, error=repr(e)[:120]),
+                                      tags=["base-exception", "idle-close", "pool-slot-lost"])
+                        continue
+                    used = sum(len(p_.used) for p_ in pools())
+                    if used:
+                        ctx.violation("the pool slot of the aborted call was lost (connection still checked out after the call)", dict(case, checked_out=used),
+                                      tags=["base-exception", "idle-close", "pool-slot-lost"])
+    finally:
+        pool_mod.time = real_time
     if ctx.lean.build_ok and model_lines:
         outs = ctx.driver.batch(model_lines)
         for line, (case, r, sock_open, unread, sent, sf, cf), o in zip(model_lines, model_meta, outs):
